@@ -116,7 +116,7 @@ def rand_quilt(rng):
     members = []
     used = 0
     for m in range(nm):
-        n = rng.randint(1, 3)
+        n = min(rng.randint(1, 4), len(pool) - used - (nm - m - 1))          # members of up to 4 positions (stepped slices must be able to skip interior ones)
         labs = pool[used:used + n]
         used += n
         cols = [C.rand_column(rng, k, n) for k in kinds]
